@@ -110,7 +110,7 @@ def run(spec: str, cfg: str, *, workers: int | str = "auto", dump: str | None = 
         # everything else that is not a clean finish is a machinery failure
         if "Model checking completed. No error has been found" not in out and \
            "Finished in" not in out or "Error:" in out:
-            raise TLCFailure(f"TLC error on {spec_path.name}/{cfg_path.name} (rc={p.returncode}):\n" + out[-3000:])
+            raise TLCFailure(f"TLC error on {spec_path.name}/{cfg_path.name} (rc={p.returncode}):\n" + out[-1200:])
     if dump:
         res.dump_file = dump if dump.endswith(".dump") else dump + ".dump"
         if not os.path.exists(res.dump_file) and os.path.exists(dump):
